@@ -630,7 +630,8 @@ func (g *gen) method(s *Service, name string, cell int) {
 		g.routes[verb+" "+h.Path] = true
 	}
 	m.HTTP = h
-	hasBody := verb == "POST" || verb == "PUT" || verb == "PATCH"
+	// DELETE requests may carry a body too (every second design)
+	hasBody := verb == "POST" || verb == "PUT" || verb == "PATCH" || (verb == "DELETE" && g.o.Index%2 == 0)
 
 	// security first: it adds credential attributes
 	var reqs []Req
